@@ -50,10 +50,14 @@ def kernel_cases(ctx, with_model=True):
     for rep in range(4 if ctx.quick else 30):
         n = int(rng.integers(20, 120 if ctx.quick else 300))
         m = int(rng.integers(10, 80))
-        sites = rng.uniform(-3, 3, size=(n, 2))
-        centers = rng.uniform(-3, 3, size=(m, 2))
+        # the coordinates are in the device's length unit, whatever it is: micrometres, a micron-scale film stated in
+        # metres (separations ~1e-7), one stated in nanometres
+        Lu = [1.0, 1e-7, 2.5e3, 1.0, 3e-9][rep % 5]
+        ctx.count(f"kernel_length_scale:{Lu:g}")
+        sites = rng.uniform(-3, 3, size=(n, 2)) * Lu
+        centers = rng.uniform(-3, 3, size=(m, 2)) * Lu
         J = rng.normal(size=(n, 2)) * rng.choice([1e-3, 1.0, 50.0])
-        areas = rng.uniform(0.01, 0.5, size=n)
+        areas = rng.uniform(0.01, 0.5, size=n) * Lu**2
         out = np.full((m, 2), np.nan)
         k(J, areas, sites, centers, out)
         d = np.sqrt(((centers[:, None, :] - sites[None, :, :]) ** 2).sum(axis=2)).astype(np.longdouble)
@@ -61,10 +65,10 @@ def kernel_cases(ctx, with_model=True):
         scale = np.einsum("jk,j,ij->ik", np.abs(J), areas, 1 / d.astype(float))
         err = np.abs(out - ref.astype(float)) / scale
         ctx.tol("numba kernel vs independent double sum (rel to sum|terms|)", float(err.max()), 1e-12)
-        ctx.case(("kernel", n, m, float(J[0, 0])), nontrivial=True)
+        ctx.case(("kernel", n, m, Lu, float(J[0, 0])), nontrivial=True)
         ctx.count("kernel_cases")
         if not np.isfinite(out).all() or err.max() > 1e-12:
-            rp = dict(n=n, m=m, rep=rep, err=float(np.nanmax(err)))
+            rp = dict(n=n, m=m, rep=rep, length_scale=Lu, err=float(np.nanmax(err)))
             ctx.fail("kernel-differs", f"accelerated kernel differs from the direct double sum (rel {np.nanmax(err):.2e})", rp)
             first = first or dict(key="kernel-differs", what="kernel", **rp)
         if with_model:
